@@ -38,7 +38,7 @@ fn plural_entries(loc: &str, masks: &[u32]) -> Vec<(String, Val)> {
 }
 
 pub fn run(tier: Tier) -> i32 {
-    let rep = Reporter::new("C05", "L1", tier);
+    let rep = Reporter::new("C05", &engine_name("L1"), tier);
     let scratch = Scratch::new("c05");
     let keys_total = Mutex::new(0u64);
     let locales: Vec<&str> = tier.pick(vec!["en", "fr", "ru", "ar"], vec!["en", "fr", "ru", "ar", "pl", "ja", "cy", "he", "lt", "ga", "sl", "lv"]);
